@@ -42,6 +42,9 @@ type SnapDriver struct {
 	Closing   bool
 	Calls     int
 	Counters  map[string]int
+	// TargetLabels, if set, supplies the further labels a Prepare with target carries (source of the
+	// layer for a real backend); the second result says whether a remote mount of them is legitimate.
+	TargetLabels func(t *simrt.Task, target string) (labels map[string]string, mayMount bool, why string)
 }
 
 func NewSnapDriver(s *simrt.Sim, sn snapshots.Snapshotter, fs *RecFS, root string) *SnapDriver {
@@ -163,7 +166,16 @@ func (d *SnapDriver) PrepareTarget(ctx context.Context, t *simrt.Task, key, pare
 	call := fmt.Sprintf("c%d", d.Calls)
 	i0 := len(d.FS.Events)
 	d.S.Event("%s PrepareTarget key=%s parent=%s target=%s", t.Label, key, parent, target)
-	ms, err := d.Sn.Prepare(ctx, key, parent, snapshots.WithLabels(map[string]string{TargetLabel: target, CallLabel: call}))
+	lbls := map[string]string{TargetLabel: target, CallLabel: call}
+	mayMount, why := true, ""
+	if d.TargetLabels != nil {
+		var extra map[string]string
+		extra, mayMount, why = d.TargetLabels(t, target)
+		for k, v := range extra {
+			lbls[k] = v
+		}
+	}
+	ms, err := d.Sn.Prepare(ctx, key, parent, snapshots.WithLabels(lbls))
 	evs := d.eventsSince(i0, t)
 	d.S.Event("%s PrepareTarget key=%s -> mounts=%d err=%v", t.Label, key, len(ms), errClass(err))
 	var myMount *MountEvent
@@ -171,6 +183,10 @@ func (d *SnapDriver) PrepareTarget(ctx context.Context, t *simrt.Task, key, pare
 		if evs[i].Op == "mount" && evs[i].OK {
 			myMount = &evs[i]
 		}
+	}
+	if myMount != nil && !mayMount {
+		d.S.Fail("mounted-unverifiable-layer", "Prepare(%s) for target %q: the backend mounted the layer although %s", key, target, why)
+		return
 	}
 	switch {
 	case err != nil && errdefs.IsAlreadyExists(err):
